@@ -48,6 +48,15 @@ class Contract:
             self.native_scope = native_scope
         self.always_raises = always_raises
 
+    def param_order(self, fn):
+        a = fn.node.args
+        names = [p.arg for p in a.posonlyargs + a.args + a.kwonlyargs]
+        if a.vararg:
+            names.append(a.vararg.arg)
+        if a.kwarg:
+            names.append(a.kwarg.arg)
+        return names
+
     def resolve(self, world):
         parts = self.target.split('.')
         for i in range(len(parts) - 1, 0, -1):
@@ -308,6 +317,8 @@ def _run_path(world, c, params, tag, it, path, rep, first):
     if gen:
         post.vars['out'] = it.out.seq
     post.vars['calls'] = tuple(it.calls)
+    for k, v in fr.vars.items():
+        post.vars.setdefault('LOCAL_' + k, v)
     for (mod, nm), v in world.module_state.items():
         if mod == c.module.name:
             post.vars['NEW_' + nm] = v
